@@ -31,6 +31,8 @@ def run(ctx: Ctx) -> None:
     effects.rule_consumed_tableau(ctx, [TRS])
     tables.rule_vocab(ctx, "vocab.gates", [(STABF, "inverse_circuit")], "TimeReversedSolver._add_gates_from_str", handled)
     solvers.rule_frontinsert(ctx)
+    from ..rules import loops
+    loops.rule_pivot_choice(ctx, STABF)
     solvers.rule_result_provenance(ctx, TRS, "TimeReversedSolver.solve", False)
     ctx.floor("order.mirror", 25)
     ctx.floor("order.frontinsert", 6)
